@@ -26,11 +26,11 @@ pub fn number_constructor_fn(
     args: &[JsValue],
 ) -> Result<Guarded, JsError> {
     // Get the number value from argument
-    let num_val = args
-        .first()
-        .cloned()
-        .unwrap_or(JsValue::Number(0.0))
-        .to_number();
+    // (an object argument is converted through Symbol.toPrimitive / valueOf / toString)
+    let num_val = match args.first() {
+        Some(value) => interp.coerce_to_number(value)?,
+        None => 0.0,
+    };
 
     // Check if called with `new` (this will be a fresh object with Number.prototype)
     if let JsValue::Object(obj) = &this {
